@@ -162,6 +162,11 @@ pub fn generate(prop: &str, rng: &mut Rng, plan: &mut Plan, index: u64) {
             plan.knobs.faults.stall_pm = *rng.pick(&[5u32, 30, 100]);
         }
     }
+    // a signal handler of the application runs while the parent is blocked in wait()
+    if prop != "C11" && rng.chance(1, 6) {
+        plan.knobs.faults.eintr = Some((1 + rng.below(3) as u32, 1 + rng.below(3) as u32, 4));
+        plan.knobs.batch = "faulty".into();
+    }
     plan.body = Body::Status(sp);
 }
 
@@ -310,6 +315,11 @@ pub fn run(plan: &Plan, sp: &StatusPlan) -> FamOut {
                     Ok(Ok(s)) => {
                         st.report(s, "wait");
                         st.check_quiet(b, "wait", known_before);
+                    }
+                    Ok(Err(e)) if is_eintr(&e) && eintr_fired() => {
+                        // an interrupted wait may fail (no information); the truth must still
+                        // come out of the later queries
+                        sim().k.probe("call_failed_with_eintr");
                     }
                     Ok(Err(e)) => {
                         if sim().poisoned.is_none() {
